@@ -90,6 +90,9 @@
 (*                          registration starts after the context ended.   *)
 (*   Independent            what happens on one broker's connection does   *)
 (*                          not change the state of another registration.  *)
+(*   HeartbeatSent          (harness only: time is not modelled) a          *)
+(*                          registration at rest for a heartbeat interval  *)
+(*                          -- 30 s, the floor -- sends ALIVE.             *)
 (*                                                                         *)
 (* PERMISSIVE WHERE CODE AND COMMENTS ARE SILENT: a request in flight when *)
 (* its broker connection drops or the context ends may be finished (hello, *)
